@@ -34,7 +34,10 @@ def mk_scripts(rng, n, sks):
     texts = {}
     for i in range(n):
         r = rng.random()
-        if r < 0.7:
+        if r < 0.08:
+            # the signature check comes after an OP_CODESEPARATOR: the BIP342 digest commits to its position (0 here)
+            out.append(bytes([OP_CODESEPARATOR]) + push_only(secp.xonly_from_sec(sks[i % len(sks)] + i)) + bytes([OP_CHECKSIG]))
+        elif r < 0.7:
             out.append(push_only(secp.xonly_from_sec(sks[i % len(sks)] + i)) + bytes([OP_CHECKSIG]))
         elif r < 0.85:
             out.append(bytes([OP_SHA256]) + push_only(sha256(bytes([i & 255, i >> 8]))) + bytes([OP_EQUAL]))
@@ -84,7 +87,8 @@ def tree_case(job):
         scripts = mk_scripts(rng, n, sks)
         origin = list(mk_scripts.origin)
         texts = dict(mk_scripts.texts)
-        hrp = rng.choice(['bcrt', 'bcrt', 'tb', 'bc'])
+        hrp = rng.choice(['bcrt'] * 6 + ['tb'] * 3 + ['bc'] * 3 + ['x', 'a' * 30, 'z' * 31, 'q' * 40, 'p' * 83])
+        long_hrp = len(hrp) > 30      # hrp + '1' + 59 characters exceed the 90 characters a bech32(m) string may have
         pre = [] if hrp == 'bcrt' and rng.random() < 0.7 else ['--addrprefix=' + hrp]
         base = [ikey.hex(), str(n)] + [texts.get(i, '0x' + s.hex()) for i, s in enumerate(scripts)]
         wit0 = dict(internal_key=ikey.hex(), n=n, scripts=[s.hex() for s in scripts][:8], hrp=hrp)
@@ -95,6 +99,14 @@ def tree_case(job):
             part.violation('address-run:' + r.crash_key('tap'), dict(wit0, run=r.brief()))
             return part.dump()
         m = ADDR.search(r.stdout.decode('latin1'))
+        if long_hrp:
+            # no valid address exists with such a prefix: the tool must say so rather than print something that is not bech32m
+            if m and r.rc == 0:
+                part.violation('address-longer-than-bech32-allows-printed', dict(wit0, address=m.group(1), length=len(m.group(1))))
+            else:
+                part.count('trees', 'prefix-too-long:refused')
+                part.nontrivial.add(nt_hash('longhrp', hrp, n))
+            return part.dump()
         if not m or r.rc != 0:
             part.violation('no-address-printed', dict(wit0, run=r.brief()))
             return part.dump()
@@ -209,7 +221,10 @@ def tree_case(job):
                 args = pre + ['--tx=' + txh, '--txin=' + finh] + base
                 wit = dict(wit0, mode='keypath')
             else:
-                cand = [i for i in range(n) if scripts[i][-1] == OP_CHECKSIG and len(scripts[i]) == 34]
+                cand = [i for i in range(n) if scripts[i][-1] == OP_CHECKSIG and len(scripts[i]) in (34, 35)]
+                cs_first = [i for i in cand if scripts[i][0] == OP_CODESEPARATOR]
+                if cs_first and rng.random() < 0.7:
+                    cand = cs_first
                 if not cand:
                     continue
                 idx = rng.choice(cand)
@@ -235,7 +250,10 @@ def tree_case(job):
                 signer = rsign.tweak_seckey(isk, ikey, roots[0] if n else None)
             else:
                 leaf = taproot.tapleaf_hash(scripts[idx])
-                want = sighash.sighash_taproot(rt, 0, 0, spent, 1, None, leaf, 0xffffffff)
+                after_cs = scripts[idx][0] == OP_CODESEPARATOR
+                want = sighash.sighash_taproot(rt, 0, 0, spent, 1, None, leaf, 0 if after_cs else 0xffffffff)
+                if after_cs:
+                    kind = 'scriptpath-after-codeseparator'
                 signer = sks[origin[idx] % len(sks)] + origin[idx]      # (a leaf that repeats another leaf's script is signed with that leaf's key)
             if got != want:
                 part.violation('reported-sighash-differs:' + kind, dict(wit, reported=got.hex(), reference=want.hex(), tx=mt.group(1)[:400]))
